@@ -25,6 +25,8 @@ type Solver struct {
 	stack   []*Term // asserted literals, one push level each
 	levelDefs [][]*Term
 	sentDefs  map[string]bool
+	globals   []*Term
+	reassert  bool
 	defsVersion int
 	Queries int
 	Sat     int
@@ -101,7 +103,11 @@ func (s *Solver) Close() {
 // Restart discards all solver state (definitions included).
 func (s *Solver) Restart() error {
 	s.Close()
-	return s.start()
+	keep := s.globals
+	err := s.start()
+	s.globals = keep
+	s.reassert = len(keep) > 0
+	return err
 }
 
 // Reset clears the solver state without restarting the process.
@@ -110,6 +116,8 @@ func (s *Solver) Reset() {
 	s.gen = solverGen
 	s.stack = nil
 	s.levelDefs = nil
+	s.globals = nil
+	s.reassert = false
 	s.sentDefs = map[string]bool{}
 	s.send("(reset)\n")
 	s.send(fmt.Sprintf("(set-option :timeout %d)\n", s.timeout))
@@ -193,10 +201,21 @@ func (s *Solver) Check(lits []*Term, global []*Term, wantModel bool) (string, Mo
 	t0 := time.Now()
 	defer func() { s.Time += time.Since(t0) }()
 	s.Queries++
-	if s.defsVersion != len(tt.defs) {
-		s.Reset()
-	}
 	var sb strings.Builder
+	if s.defsVersion != len(tt.defs) {
+		// a function was registered after the solver started: start over, keeping the global assertions
+		keep := s.globals
+		s.Reset()
+		s.globals = keep
+		s.reassert = true
+	}
+	if s.reassert {
+		for _, g := range s.globals {
+			s.define(g, &sb)
+			fmt.Fprintf(&sb, "(assert %s)\n", g.ref())
+		}
+		s.reassert = false
+	}
 	// common prefix with what is already asserted
 	k := 0
 	for k < len(lits) && k < len(s.stack) && s.stack[k] == lits[k] {
@@ -209,6 +228,7 @@ func (s *Solver) Check(lits []*Term, global []*Term, wantModel bool) (string, Mo
 	for _, g := range global {
 		s.define(g, &sb)
 		fmt.Fprintf(&sb, "(assert %s)\n", g.ref())
+		s.globals = append(s.globals, g)
 	}
 	for _, l := range lits[k:] {
 		sb.WriteString("(push)\n")
@@ -555,7 +575,7 @@ func (x *Explorer) next() bool {
 			return true
 		case "unsat":
 		default:
-			x.Undecided = append(x.Undecided, "solver-unknown at "+d.site)
+			x.addUndecided("solver-unknown at " + d.site)
 		}
 		x.prefix = x.prefix[:last]
 	}
@@ -610,6 +630,9 @@ func (x *Explorer) RunUnit(setup func(), check func()) {
 func (x *Explorer) modelMap() map[string]uint64 {
 	m := map[string]uint64{}
 	for _, v := range tt.vars {
+		if strings.HasPrefix(v.Name, "sumarg") {
+			continue
+		}
 		if val, ok := x.model[v]; ok {
 			m[v.Name] = val
 		} else {
@@ -628,7 +651,7 @@ func (x *Explorer) Explore(check func()) {
 	for first || x.next() {
 		first = false
 		if x.Paths >= x.PathBudget {
-			x.Undecided = append(x.Undecided, "path-budget")
+			x.addUndecided("path-budget")
 			break
 		}
 		x.idx = 0
@@ -643,7 +666,15 @@ func (x *Explorer) Explore(check func()) {
 		if why != "" {
 			x.Aborted[why]++
 			if why == "budget" || why == "depth" || why == "concretise-limit" {
-				x.Undecided = append(x.Undecided, why)
+				x.addUndecided(why)
+				if x.Aborted[why] >= 3 {
+					x.addUndecided("stopped-after-aborts")
+					break
+				}
+			}
+			if why == "violation" && x.Aborted[why] >= 12 {
+				x.addUndecided("stopped-after-violations")
+				break
 			}
 		} else {
 			x.Paths++
@@ -652,7 +683,7 @@ func (x *Explorer) Explore(check func()) {
 			}
 		}
 		if len(x.Violations) >= x.MaxViol {
-			x.Undecided = append(x.Undecided, "stopped-after-violations")
+			x.addUndecided("stopped-after-violations")
 			break
 		}
 		if os.Getenv("GOSYM_CHECKMODEL") != "" {
@@ -689,4 +720,13 @@ func (x *Explorer) ReportPanic(msg string, runtimeErr bool) {
 		id = "panic"
 	}
 	x.violation(id, msg)
+}
+
+func (x *Explorer) addUndecided(why string) {
+	for _, u := range x.Undecided {
+		if u == why {
+			return
+		}
+	}
+	x.Undecided = append(x.Undecided, why)
 }
